@@ -188,6 +188,23 @@ fn check(t: &TextCase, obs: &mut Obs) {
     if last != result {
         obs.fail("multi-line-result-equals-last-line", format!("draw returned {:?}, the last line drawn separately returns {:?}", result, last));
     }
+    // the same for the pieces of a CR LF text cut at the line feeds only: a piece keeps its carriage return at the end,
+    // which belongs to the line break and must not become a cell when the piece is drawn on its own
+    if lf != t.text {
+        let mut union2: Map<C> = Map::new();
+        let mut last2 = pos;
+        for (i, piece) in t.text.split('\n').enumerate() {
+            let mut lc = t.with_text(piece);
+            lc.pos = (t.pos.0, t.pos.1 + i as i32 * lhpx);
+            let (m, r) = render(&lc);
+            last2 = r;
+            union2.extend(m);
+        }
+        obs.class("crlf-pieces-drawn-separately");
+        if union2 != map || last2 != result {
+            obs.fail("crlf-equals-lf", format!("the pieces between the line feeds (each ending in a carriage return) drawn separately: last returns {:?}, whole text {:?}; {}", last2, result, map_diff(&union2, &map)));
+        }
+    }
 
     // chaining: s1 then s2 at the returned position equals s1 + s2 (single line, left aligned, fonts without spacing)
     if t.align == 0 && !t.text.contains('\n') && !t.text.contains('\r') && font.character_spacing == 0 {
@@ -264,7 +281,7 @@ fn main() {
         assumptions: &["all built-in fonts have character spacing 0 (the chaining clause is restricted to such fonts by the statement)", "Middle is the centre row of the character box rounded down, like Rectangle::center"],
         parts: |_| vec![PartSpec::new("all", "verif")],
         run_part,
-        required_classes: |_| vec!["left", "center", "right", "baseline-top", "baseline-bottom", "baseline-middle", "baseline-alphabetic", "crlf", "empty-line", "line-height-pixels", "line-height-percent", "middle-baseline-even-height", "line-longer-than-7-bytes", "chained", "characters-beyond-a-small-target"],
+        required_classes: |_| vec!["crlf-pieces-drawn-separately", "left", "center", "right", "baseline-top", "baseline-bottom", "baseline-middle", "baseline-alphabetic", "crlf", "empty-line", "line-height-pixels", "line-height-percent", "middle-baseline-even-height", "line-longer-than-7-bytes", "chained", "characters-beyond-a-small-target"],
         crash_is_verdict: false,
     })
 }
